@@ -534,6 +534,8 @@ namespace bloch::runtime {
         m_executed = true;
         m_functions.clear();
         m_env.clear();
+        m_frameStart = 0;
+        m_frameStack.clear();
         m_measurements.clear();
         m_trackedCounts.clear();
         m_echoBuffer.clear();
@@ -605,9 +607,9 @@ namespace bloch::runtime {
     }
 
     Value RuntimeEvaluator::lookup(const std::string& name) {
-        for (auto it = m_env.rbegin(); it != m_env.rend(); ++it) {
-            auto fit = it->find(name);
-            if (fit != it->end())
+        for (size_t i = m_env.size(); i-- > m_frameStart;) {
+            auto fit = m_env[i].find(name);
+            if (fit != m_env[i].end())
                 return fit->second.value;
         }
         std::shared_ptr<Object> thisObj = currentThisObject();
@@ -641,9 +643,9 @@ namespace bloch::runtime {
     }
 
     void RuntimeEvaluator::assign(const std::string& name, const Value& v) {
-        for (auto it = m_env.rbegin(); it != m_env.rend(); ++it) {
-            auto fit = it->find(name);
-            if (fit != it->end()) {
+        for (size_t i = m_env.size(); i-- > m_frameStart;) {
+            auto fit = m_env[i].find(name);
+            if (fit != m_env[i].end()) {
                 Value newVal = widenToSlot(v, fit->second.value.type);
                 if (fit->second.value.type == Value::Type::Object &&
                     newVal.type == Value::Type::Object && newVal.objectValue &&
@@ -687,9 +689,9 @@ namespace bloch::runtime {
     }
 
     std::shared_ptr<Object> RuntimeEvaluator::currentThisObject() const {
-        for (auto it = m_env.rbegin(); it != m_env.rend(); ++it) {
-            auto found = it->find("this");
-            if (found != it->end() && found->second.value.objectValue)
+        for (size_t i = m_env.size(); i-- > m_frameStart;) {
+            auto found = m_env[i].find("this");
+            if (found != m_env[i].end() && found->second.value.objectValue)
                 return found->second.value.objectValue;
         }
         return {};
@@ -1344,7 +1346,7 @@ namespace bloch::runtime {
                 m_inStaticContext = false;
                 m_inConstructor = false;
                 m_inDestructor = true;
-                beginScope();
+                beginFrame();
                 Value thisVal;
                 thisVal.type = Value::Type::Object;
                 thisVal.objectValue = std::shared_ptr<Object>(obj, [](Object*) {});
@@ -1355,7 +1357,7 @@ namespace bloch::runtime {
                     if (m_hasReturn)
                         break;
                 }
-                endScope();
+                endFrame();
                 m_inDestructor = prevDtor;
                 m_inConstructor = prevCtor;
                 m_inStaticContext = prevStatic;
@@ -1409,7 +1411,7 @@ namespace bloch::runtime {
                 bool prevStatic = m_inStaticContext;
                 m_currentClassCtx = cls;
                 m_inStaticContext = false;
-                beginScope();
+                beginFrame();
                 Value thisVal;
                 thisVal.type = Value::Type::Object;
                 thisVal.objectValue = obj;
@@ -1417,7 +1419,7 @@ namespace bloch::runtime {
                 m_env.back()["this"] = {thisVal, false, true};
                 Value init = widenToSlot(eval(field.initializer), field.type.kind);
                 slot = init;
-                endScope();
+                endFrame();
                 m_currentClassCtx = prevClass;
                 m_inStaticContext = prevStatic;
             }
@@ -1447,7 +1449,7 @@ namespace bloch::runtime {
         m_inStaticContext = false;
         m_inConstructor = true;
         m_inDestructor = false;
-        beginScope();
+        beginFrame();
         Value thisVal;
         thisVal.type = Value::Type::Object;
         thisVal.objectValue = obj;
@@ -1563,7 +1565,7 @@ namespace bloch::runtime {
             std::cerr << "[ctor] " << cls->name << " done" << std::endl;
         }
 
-        endScope();
+        endFrame();
         m_currentClassCtx = prevClass;
         m_inStaticContext = prevStatic;
         m_inConstructor = prevCtor;
@@ -1584,7 +1586,7 @@ namespace bloch::runtime {
         m_inStaticContext = method->isStatic;
         m_inConstructor = false;
         m_inDestructor = false;
-        beginScope();
+        beginFrame();
         if (!method->isStatic) {
             Value thisVal;
             thisVal.type = Value::Type::Object;
@@ -1608,7 +1610,7 @@ namespace bloch::runtime {
             }
         }
         Value ret = widenToSlot(m_returnValue, declaredKind(method->decl->returnType.get()));
-        endScope();
+        endFrame();
         m_hasReturn = prevReturn;
         m_currentClassCtx = prevClass;
         m_inStaticContext = prevStatic;
@@ -1619,7 +1621,11 @@ namespace bloch::runtime {
 
     Value RuntimeEvaluator::call(FunctionDeclaration* fn, const std::vector<Value>& args) {
         // Bind parameters, run the body until a return is hit, then unwind.
-        beginScope();
+        RuntimeClass* prevClassCtx = m_currentClassCtx;
+        bool prevStaticCtx = m_inStaticContext;
+        m_currentClassCtx = nullptr;
+        m_inStaticContext = false;
+        beginFrame();
         for (size_t i = 0; i < fn->params.size() && i < args.size(); ++i) {
             m_env.back()[fn->params[i]->name] = {
                 widenToSlot(args[i], declaredKind(fn->params[i]->type.get())), false, true};
@@ -1635,8 +1641,10 @@ namespace bloch::runtime {
             }
         }
         Value ret = widenToSlot(m_returnValue, declaredKind(fn->returnType.get()));
-        endScope();
+        endFrame();
         m_hasReturn = prevReturn;
+        m_currentClassCtx = prevClassCtx;
+        m_inStaticContext = prevStaticCtx;
         return ret;
     }
 
@@ -3221,6 +3229,22 @@ namespace bloch::runtime {
     }
 
     void RuntimeEvaluator::beginScope() { m_env.push_back({}); }
+
+    // A call starts a new frame: names are resolved in the callee's own scopes (then its
+    // fields), never in the scopes of whichever function happens to be calling it.
+    void RuntimeEvaluator::beginFrame() {
+        m_frameStack.push_back(m_frameStart);
+        m_frameStart = m_env.size();
+        beginScope();
+    }
+
+    void RuntimeEvaluator::endFrame() {
+        endScope();
+        if (!m_frameStack.empty()) {
+            m_frameStart = m_frameStack.back();
+            m_frameStack.pop_back();
+        }
+    }
 
     void RuntimeEvaluator::endScope() {
         if (m_env.empty())
